@@ -61,6 +61,8 @@ def run(ctx, model):
     run_slc_operations(ctx, model)
     run_two_drivers(ctx, model)
     run_burned_counts(ctx, model)
+    from props import c02
+    c02.run_lost_fragment(ctx, model)      # a refused fragment in the middle of a fragmented write: counts on the wire
     outs = model.batch(lines)
     for (stream, k, want), out in zip(pend, outs):
         if out != want:
@@ -387,14 +389,22 @@ def run_burned_counts(ctx, model):
     ks = [65533] if ctx.tier == "quick" else [65533, 65532, 65534, 2 * 65535 - 2, 1000]
     for k in ks:
         files, cfg = slcdrv.gen_setup(rng)
+        # a designed history: plain open, an address the parser accepts (whether the file exists does not matter for
+        # the counts: the request goes out and is answered)
+        from props import c18
+        cfg["mode"] = "open"
+        cfg.pop("advance", None)
+        cfg.pop("warmup", None)
+        cfg["table"] = c18.table_sx(files)
         pair = slcdrv.Pair(model, cfg)
         if pair.open_error is not None:
             pair.close()
+            ctx.count("burned-counts/open-failed")
             continue
         n0 = max(0, len(pair.sock.frames) - 1)
         failed = 0
+        a = "N7:0"
         try:
-            a = slcdrv.gen_read_address(rng, files)[0]
             core.with_budget(30, pair.d.read, a)
             for _ in range(k):
                 try:
